@@ -18,6 +18,10 @@ _schema_check = None
 
 
 def _init_worker(base: str) -> None:
+    import faulthandler
+    import signal
+
+    faulthandler.register(signal.SIGUSR1, all_threads=True)  # `kill -USR1 <worker>` prints where it is
     global _worker_dir
     _worker_dir = tempfile.mkdtemp(prefix=f"wk-{os.getpid()}-", dir=base)
     tmp = os.path.join(_worker_dir, "tmp")
@@ -160,6 +164,8 @@ def _run_scenario(sc: dict) -> dict:
             }
             if step.get("keep_after"):
                 so["after"] = {k: project.decode(v) for k, v in after.items()}
+            if step.get("keep_contents"):
+                so["contents"] = {k: project.decode(v) for k, v in run["contents"].items() if v is not None}
             if step.get("keep_events"):
                 so["events"] = [{k: v for k, v in e.items() if k not in ("registry",)} for e in run["events"]]
             steps_out.append(so)
